@@ -32,11 +32,16 @@ def gen_cases(rng, tier):
         at = rng.pick(['open', 0, n // 2, n - 1, 'end'])
         if at == 0 and any(s.get('t') == 'filter' for s in pre):
             at = 1
-        failing = {'t': 'probe_rows', 'fail': {'at': at, 'exc': rng.pick(['generic', 'assertion', 'validation', 'cast', 'unique', 'sourceload', 'processor'])}}
+        failing = {'t': rng.pick(['probe_rows', 'probe_rows', 'probe_row']) if isinstance(at, int) else 'probe_rows',
+                   'fail': {'at': at, 'exc': rng.pick(['generic', 'assertion', 'validation', 'cast', 'cast_nested', 'stopiteration', 'unique', 'sourceload', 'processor'])}}
         cases.append({'kind': 'fault', 'n': n, 'steps': pre + [failing] + post, 'via': rng.pick(['results', 'process', 'datastream'])})
     # systematic part: every phase x every committing observer placed after the failing step
-    excs = ['generic', 'assertion', 'validation', 'cast', 'unique', 'sourceload', 'processor']
+    excs = ['generic', 'assertion', 'validation', 'cast', 'cast_nested', 'stopiteration', 'unique', 'sourceload', 'processor']
     j = 0
+    # row-level user steps (driven by the framework's default per-row loop) raising each class at a middle row
+    for exc in excs:
+        for via in ['results', 'process']:
+            cases.append({'kind': 'fault', 'n': 6, 'steps': [{'t': 'probe_row', 'fail': {'at': 3, 'exc': exc}}, {'t': 'dump'}], 'via': via})
     for obs in ['dump', 'stream', 'checkpoint', 'finalizer']:
         for n in (4, 130):
             for at in ['open', 0, n // 2, n - 1, 'end']:
@@ -214,9 +219,16 @@ def oracle(case, out):
     if out['outcome'][1] != 'ProcessorError':
         return 'raised %s instead of ProcessorError' % out['outcome'][1]
     want = {'generic': 'RuntimeError', 'assertion': 'AssertionError', 'validation': 'ValidationError', 'cast': 'CastError',
+            'cast_nested': 'CastError', 'stopiteration': 'StopIteration',
             'unique': 'UniqueKeyError', 'sourceload': 'SourceLoadError', 'processor': 'RuntimeError'}[fail['exc']]
-    if out['outcome'][2] != want:
+    if fail['exc'] == 'stopiteration':
+        # Python turns a StopIteration escaping a generator into a RuntimeError whose cause it is
+        if 'StopIteration' not in (out['outcome'][4] if len(out['outcome']) > 4 else [out['outcome'][2]]):
+            return 'the StopIteration the step raised is not in the cause chain %r' % (out['outcome'][2:],)
+    elif out['outcome'][2] != want:
         return 'ProcessorError.cause is %s, the step raised %s' % (out['outcome'][2], want)
+    if fail['exc'] == 'cast_nested' and 'with nested errors' not in (out['outcome'][3] or ''):
+        return 'ProcessorError.cause is %r, not the error the step raised (one of its nested errors took its place)' % (out['outcome'][3],)
     for name, a in out['artifacts'].items():
         pos = int(''.join(ch for ch in name if ch.isdigit()))
         if pos > k + 1 and (a.get('descriptor') or a.get('committed')):
